@@ -307,7 +307,10 @@ func vSameBytes(a, b []byte) bool {
 }
 
 func VerifC15Bytes() {
-	nb := sym.Choose(sym.Param("blocks", 2) + 1)
+	nb := sym.Param("blocks", 2)
+	if sym.Param("exactblocks", 0) == 0 {
+		nb = sym.Choose(sym.Param("blocks", 2) + 1)
+	}
 	ref := &vRefMem{}
 	blocks, copies := vSymBlocks("blk", nb, ref)
 	var m *Bytes
